@@ -212,3 +212,13 @@ def _():
 def _():
     a = np.array([2, 2 ** 64 - 1], dtype=np.uint64)
     return int(ndx.argmax(ndx.asarray(a)).to_numpy()) != int(np.argmax(a))
+
+
+@witness("C01", "broadcast_to*/*/*-only-with-onnxruntime-graph-optimizations")
+def _():
+    return W["C15"]["broadcast_to*/*/*-only-with-onnxruntime-graph-optimizations"]()
+
+
+@witness("C06", "broadcast_to*/*/*-only-with-onnxruntime-graph-optimizations")
+def _():
+    return W["C15"]["broadcast_to*/*/*-only-with-onnxruntime-graph-optimizations"]()
